@@ -149,6 +149,26 @@ def stokes_green_cases(slot: int, mono: Any, mname: str) -> list[tuple[str, str]
             out.append((f"flux=ref:{tag}", "" if equal(flux, wantf) else
                 f"flux across the curve {short(flux)}, closed form {short(wantf)}"))
             out.append((f"clean:flux:{tag}", clean(flux, cs) or clean(flux_s, cs)))
+            if name in ("circle", "ellipse"):
+                # the same region traversed clockwise, given as a flat 2-component and as a
+                # 3-component surface: both integrals flip their sign together
+                mirror = {t: -t}
+                rsurf = [c.subs(mirror) for c in surf]
+                rcurve = [c.subs(mirror) for c in curve]
+                cr_curve = call(A.circulation_along_curve, fld, rcurve, lim)
+                for label, sf in (("flat", rsurf), ("3d", rsurf + [0])):
+                    cr_s = call(A.circulation_along_surface_boundary, fld, sf, l1, l2)
+                    out.append((f"stokes-clockwise-{label}:{tag}", "" if equal(cr_curve, cr_s) and
+                        equal(cr_s, -circ) else f"clockwise {label} surface: curl integral "
+                        f"{short(cr_s)}, curve integral {short(cr_curve)}, counter-clockwise value "
+                        f"{short(circ)}"))
+                flat = call(A.circulation_along_surface_boundary, fld, surf, l1, l2)
+                out.append((f"stokes-flat:{tag}", "" if equal(flat, circ) else
+                    f"2-component surface gives {short(flat)}, 3-component {short(circ_s)}"))
+                fl_flat = call(A.flux_across_surface_boundary, fld, surf, l1, l2)
+                out.append((f"green-flat:{tag}", "" if equal(fl_flat, flux) else
+                    f"2-component surface gives divergence integral {short(fl_flat)}, curve flux "
+                    f"{short(flux)}"))
             if name == "circle":
                 # orientation reversal flips the sign
                 rev = [Rr * sp.cos(-t), Rr * sp.sin(-t)]
@@ -172,6 +192,12 @@ def stokes_green_cases(slot: int, mono: Any, mname: str) -> list[tuple[str, str]
             f"flux across the four sides {short(flux)} != divergence over the rectangle "
             f"{short(flux_s)}"))
         out.append((f"clean:{tag}", clean(circ_s, cs) or clean(flux_s, cs)))
+        # rectangle with the two parameters exchanged: negatively oriented, flat and 3-component
+        for label, sf in (("flat", [v, u]), ("3d", [v, u, 0])):
+            cs_sw = call(A.circulation_along_surface_boundary, fld, sf, (u, 0, b), (v, 0, a))
+            out.append((f"stokes-swapped-{label}:{tag}", "" if equal(cs_sw, -circ) else
+                f"rectangle with exchanged parameters ({label}): {short(cs_sw)}, expected "
+                f"{short(-circ)}"))
     if trig:
         return out
     # paraboloid cap: 3-component field
